@@ -1732,7 +1732,34 @@ class Exec:
 
     def assign_target(self, tgt, val, node):
         if isinstance(tgt, ast.Name) and self.c.py_mode and val.k in ("obj", "method") and tgt.id in self.c.inputs:
-            self.vars[tgt.id] = self.make_input(tgt.id, self.c.inputs[tgt.id])
+            # a name typed by the contract that receives an opaque value: a typed symbolic value.  The FIRST binding
+            # is the input the contract's requires talk about; every later rebinding is a new, unrelated value of that
+            # type (nothing is assumed to carry over from the earlier one)
+            k = self.labels.get(("rebind", tgt.id), 0)
+            rhs = getattr(node, "value", None)
+            self_ref = rhs is not None and any(isinstance(x, ast.Name) and x.id == tgt.id for x in ast.walk(rhs))
+            # recognised value-preserving conversions of the same object keep the symbolic value
+            conv = False
+            if self_ref and isinstance(rhs, ast.Call):
+                fnm = None
+                try:
+                    fnm = ast.unparse(rhs.func)
+                except Exception:
+                    pass
+                first = rhs.args[0] if rhs.args else None
+                if fnm in ("np.array", "np.asarray", "numpy.array", "numpy.asarray", "np.ascontiguousarray", "to_cy", "np.require") \
+                        and isinstance(first, ast.Name) and first.id == tgt.id:
+                    conv = True
+                if isinstance(rhs.func, ast.Attribute) and isinstance(rhs.func.value, ast.Name) and rhs.func.value.id == tgt.id \
+                        and rhs.func.attr in ("astype", "copy"):
+                    conv = True
+            already = (k > 0 or self_ref) and not conv
+            self.labels[("rebind", tgt.id)] = k + 1
+            if already:
+                v = self.make_input(f"{tgt.id}__v{k + 1}_{next(self.n)}", self.c.inputs[tgt.id])
+            else:
+                v = self.make_input(tgt.id, self.c.inputs[tgt.id])
+            self.vars[tgt.id] = v
             return
         if isinstance(tgt, ast.Name):
             ty = self.types.get(tgt.id)
@@ -2355,6 +2382,8 @@ class Exec:
             a, b = self.ev(n.args[0]), self.ev(n.args[1])
             ta = self.heap[a.t.id] if a.k == "arr" else None
             tb = self.heap[b.t.id] if b.k == "arr" else None
+            if ta is None or tb is None or ta.sort() != tb.sort():
+                raise Undecidable("same_array() of values that are not arrays of one element sort and rank")
             return self.mk_bool(ta == tb)
         if fn == "rowsum":
             # rowsum(A, a): sum of row a of the 2-d integer array A over its full width.  The only
